@@ -47,6 +47,9 @@ func GoEnv(extra ...string) []string {
 	if m := os.Getenv("VERIF_MODFILE"); m != "" {
 		fl += " -modfile=" + m
 	}
+	if x := os.Getenv("VERIF_GOFLAGS_EXTRA"); x != "" { // diagnostics only (tools/repocover.sh: -cover builds of gxz)
+		fl += " " + x
+	}
 	return append(append(os.Environ(), fl, "GOPROXY=off", "GOSUMDB=off", "GOTOOLCHAIN=local"), extra...)
 }
 
